@@ -27,6 +27,8 @@ def val_text(v, box=lambda inner: "G1", comptime=False) -> str:
         return str(v[1])
     if tag == "half":
         return repr(v[1] / 2)
+    if tag == "negzero":
+        return "-0.0"
     if tag == "bool":
         return "True" if v[1] else "False"
     if tag == "tup":
@@ -48,6 +50,8 @@ def val_events(tagname: str, v) -> list:
         return [[tagname, "uint", v[1]]]
     if tag == "half":
         return [[tagname, "f64", v[1] / 2]]
+    if tag == "negzero":
+        return [[tagname, "f64", -0.0]]
     if tag == "bool":
         return [[tagname, "bool", bool(v[1])]]
     if tag in ("tup", "arr"):
@@ -57,7 +61,7 @@ def val_events(tagname: str, v) -> list:
 
 def print_stmts(tagname: str, var: str, v, ind="    ") -> list[str]:
     tag = v[0]
-    if tag in ("int", "nat", "half", "bool"):
+    if tag in ("int", "nat", "half", "bool", "negzero"):
         return [f'{ind}result("{tagname}", {var})']
     if tag == "tup":
         names = [f"{var}_{i}" for i in range(len(v[1]))]
@@ -71,7 +75,20 @@ def print_stmts(tagname: str, var: str, v, ind="    ") -> list[str]:
 
 
 def expected_events(rec) -> list:
-    return [e for tagname, v in rec["expected"] for e in val_events(tagname, v)]
+    """Expected result events of the whole program: round 1 then round 2."""
+    return [e for rd in rec["rounds"] for tagname, v in rd["expected"] for e in val_events(tagname, v)]
+
+
+def strict(events) -> list:
+    """Events in a form whose equality distinguishes -0.0 from 0.0 and bool from int."""
+    return [[t, k, repr(v)] for t, k, v in events]
+
+
+def round_view(rec, r: int) -> dict:
+    """The record of one call of mid (round r = 0, 1) in the single-call layout Render uses."""
+    rd = rec["rounds"][r]
+    return {"id": rec["id"], "actuals": rd["actuals"], "boxes": rec["boxes"], "expected": rd["expected"],
+            "foo": dict(rd["foo"], generic=rec["gen"]["foo"]), "mid": dict(rd["mid"], generic=rec["gen"]["mid"])}
 
 
 def const_token(c) -> str:
@@ -86,15 +103,23 @@ def const_token(c) -> str:
 
 
 class Render:
-    def __init__(self, rec, variant):
-        self.rec, self.variant = rec, variant
+    def __init__(self, rec, variant, suffix="", shared=None, rnd=0):
+        self.rec, self.variant, self.suffix, self.rnd = rec, variant, suffix, rnd
         self.slots = rec["id"]["slots"]
         self.foo = rec["foo"][SIGKEY[variant]]
         self.mid = rec["mid"][SIGKEY[variant]]
         self.boxes = rec["boxes"]  # tv -> field type of G1[targ]
-        self.box_names: dict[str, str] = {}
-        self.decls: list[str] = []
-        self.uses_g1 = False
+        self.sh = shared if shared is not None else {"box_names": {}, "decls": [], "uses_g1": False, "uses_tag": False}
+        self.box_names = self.sh["box_names"]
+        self.decls = self.sh["decls"]
+
+    @property
+    def uses_g1(self):
+        return self.sh["uses_g1"]
+
+    @uses_g1.setter
+    def uses_g1(self, v):
+        self.sh["uses_g1"] = v
 
     # -- types ---------------------------------------------------------------------
     def ty(self, t) -> str:
@@ -104,6 +129,16 @@ class Render:
                 return self.box_class(arg)
             self.uses_g1 = True
             return f"G1[{self.ty(arg)}]"
+        if t[0] == "st" and t[1] == "Tag":
+            c = t[2][0][1]
+            if c[0] == "cval":  # the hand-specialised copy of Tag for this constant
+                name = "Tag_" + self.const(c)
+                decl = f"@guppy.struct\nclass {name}:\n    pass\n"
+                if decl not in self.decls:
+                    self.decls.append(decl)
+                return name
+            self.sh["uses_tag"] = True
+            return f"Tag[{c[2]}]"
         if t[0] == "tup":
             return "tuple[" + ", ".join(self.ty(e) for e in t[2]) + "]"
         if t[0] == "arr":
@@ -150,7 +185,7 @@ class Render:
         for x, keep in self.kept_inputs(sig):
             if keep:
                 parts.append(f"{x[2]}: {self.ty(x[0])}" + (f" @{x[1]}" if x[1] else ""))
-        return f"@guppy\ndef {name}({', '.join(parts)}) -> {self.ty(sig['output'])}:\n"
+        return f"@guppy\ndef {name}{self.suffix}({', '.join(parts)}) -> {self.ty(sig['output'])}:\n"
 
     def ref(self, name, sub) -> str:
         a = sub.get(name)
@@ -167,6 +202,9 @@ class Render:
         for i, s in enumerate(self.slots):
             if s[0] in ("K", "M"):
                 lines.append(f'    result("{names[i]}", {self.ref(names[i], sub)})')
+            elif s[0] == "G":  # the const parameter the struct type carries, used as a value
+                bname = gen["inputs"][i][0][2][0][1][2]
+                lines.append(f'    result("{bname}", {bname})')
         for p in gen["params"]:
             if p[0] == "cp" and p[3] == ["nat"] and not p[4]:
                 lines.append(f'    result("{p[2]}", {self.ref(p[2], sub)})')
@@ -194,52 +232,99 @@ class Render:
         for x, keep in self.kept_inputs(self.foo):
             if keep:
                 args.append(self.ref(x[2], sub) if x[1] == "comptime" else x[2])
-        return self.header("mid", self.mid) + f"    return foo({', '.join(args)})\n"
+        return self.header("mid", self.mid) + f"    return foo{self.suffix}({', '.join(args)})\n"
 
-    def main_src(self) -> str:
-        n = len(self.slots)
-        actual = {x[2]: None for x in self.rec["mid"]["generic"]["inputs"]}
+    def call_stmts(self) -> list[str]:
+        """Statements of main for this round: call mid and print what it returns."""
+        R = self.rnd + 1
+        actual = {}
         gen_foo_inputs = self.rec["foo"]["generic"]["inputs"]
         for i, x in enumerate(gen_foo_inputs):
-            actual[x[2]] = (self.rec["actuals"][i], self.slots[i])
-        args = []
+            actual[x[2]] = (self.rec["actuals"][i], self.slots[i], i)
+        pre, args = [], []
         for x, keep in self.kept_inputs(self.mid):
             if not keep:
                 continue
-            v, s = actual[x[2]]
+            v, s, i = actual[x[2]]
             if s[0] == "B":
                 cls = self.ty(x[0])
                 cls = "G1" if cls.startswith("G1[") else cls
                 args.append(val_text(v, box=lambda inner, cls=cls: cls))
+            elif s[0] == "G":
+                cls = self.ty(x[0])
+                if cls.startswith("Tag["):  # generic struct: the constant is given by annotation
+                    pre.append(f"    tg{R}_{i}: Tag[{val_text(['bool', v[1]])}] = Tag()")
+                    args.append(f"tg{R}_{i}")
+                else:
+                    args.append(f"{cls}()")
             else:
                 args.append(val_text(v, comptime=(x[1] == "comptime")))
         rets = [i for i, s in enumerate(self.slots) if s[0] in ("V", "D", "B")]
-        names = [f"r{j}" for j in range(len(rets) + 1)]
-        lines = ["@guppy", "def main() -> None:",
-                 f"    {', '.join(names)} = mid({', '.join(args)})"]
+        names = [f"r{R}_{j}" for j in range(len(rets) + 1)]
+        lines = pre + [f"    {', '.join(names)} = mid{self.suffix}({', '.join(args)})"]
         for nm, i in zip(names, rets):
             v = self.rec["actuals"][i]
             lines += print_stmts("r", nm, v[1] if v[0] == "box" else v)
         lines.append(f'    result("r", {names[-1]})')
-        return "\n".join(lines) + "\n"
+        return lines
 
-    def source(self) -> str:
-        foo, mid, main = self.foo_src(), self.mid_src(), self.main_src()
-        head = ["from typing import Generic"]
-        seen = set()
+    def head_lines(self) -> list[str]:
+        head = []
         for sig in (self.foo, self.mid):
             for p in sig["params"]:
-                if p[2] in seen:
-                    continue
-                seen.add(p[2])
                 if p[0] == "tp":
                     head.append(f'{p[2]} = guppy.type_var("{p[2]}", copyable={p[3]}, droppable={p[4]})')
-                elif not p[4]:
+                elif not p[4] and p[3] == ["nat"]:
                     head.append(f'{p[2]} = guppy.nat_var("{p[2]}")')
-        if self.uses_g1:
-            head.append('_B = guppy.type_var("_B", copyable=False, droppable=False)\n'
-                        "@guppy.struct\nclass G1(Generic[_B]):\n    x: _B\n")
-        return "\n".join(head) + "\n" + "\n".join(self.decls) + "\n" + foo + "\n" + mid + "\n" + main
+                elif not p[4]:
+                    head.append(f'{p[2]} = guppy.const_var("{p[2]}", "{p[3][0]}")')
+        return head
+
+
+def render(rec, variant) -> str:
+    """One program: (generic) foo, mid, main calling mid once per round; or (partial/closed)
+    one textual copy foo_r / mid_r per round."""
+    shared = {"box_names": {}, "decls": [], "uses_g1": False, "uses_tag": False}
+    nr = len(rec["rounds"])
+    rs = [Render(round_view(rec, r), variant, "" if variant == "generic" else f"_{r + 1}", shared, r) for r in range(nr)]
+    defs = []
+    for r in (rs[:1] if variant == "generic" else rs):
+        defs += [r.foo_src(), r.mid_src()]
+    body = [ln for r in rs for ln in r.call_stmts()]
+    head = ["from typing import Generic"]
+    for r in rs:
+        for ln in r.head_lines():
+            if ln not in head:
+                head.append(ln)
+    if shared["uses_g1"]:
+        head.append('_B = guppy.type_var("_B", copyable=False, droppable=False)\n'
+                    "@guppy.struct\nclass G1(Generic[_B]):\n    x: _B\n")
+    if shared["uses_tag"]:
+        head.append('_Bq = guppy.const_var("_Bq", "bool")\n@guppy.struct\nclass Tag(Generic[_Bq]):\n    pass\n')
+    main = "@guppy\ndef main() -> None:\n" + "\n".join(body) + "\n"
+    return "\n".join(head) + "\n" + "\n".join(shared["decls"]) + "\n" + "\n".join(defs) + "\n" + main
+
+
+def func_names(rec, variant) -> list[str]:
+    if variant == "generic":
+        return ["foo", "mid"]
+    return [f"{f}_{r + 1}" for f in ("foo", "mid") for r in range(len(rec["rounds"]))]
+
+
+def expected_defs(rec, variant) -> dict:
+    """name -> sorted list of Hugr type-parameter lists, one per expected FuncDefn."""
+    out = {}
+    if variant == "generic":
+        for f in ("foo", "mid"):
+            seen = {}
+            for rd in rec["rounds"]:
+                seen[json.dumps(rd[f]["mono"])] = rd[f]["hugr"]
+            out[f] = sorted(seen.values())
+    else:
+        for f in ("foo", "mid"):
+            for r, rd in enumerate(rec["rounds"]):
+                out[f"{f}_{r + 1}"] = [[] if variant == "closed" else rd[f]["hugr"]]
+    return out
 
 
 def _has_var(t) -> bool:
@@ -258,10 +343,6 @@ def _unmark(t):
             return ["none", False]
         return [_unmark(x) for x in t]
     return t
-
-
-def render(rec, variant) -> str:
-    return Render(rec, variant).source()
 
 
 # ---------------------------------------------------------------------------------------
